@@ -32,6 +32,8 @@ func (n *nodeMemberManager) NotifyGossipLeave(id uint64) {
 	for _, session := range sessions {
 		lwt := session.LWT
 		if lwt != nil {
+			// the stored will carries the client's topic: it lives inside the session's mount point
+			lwt.Topic = append([]byte(session.MountPoint+"/"), lwt.Topic...)
 			n.log.Append(lwt)
 		}
 	}
